@@ -827,4 +827,84 @@ def rule_queue_sources(ctx):
     rule_small_sources(ctx, 'C06.e')
 
 
-RULES = [('C20.a', rule_a), ('C20.b', c06a), ('C20.c', c06b), ('C20.d', rule_d), ('C20.e', rule_e), ('C20.f', rule_f), ('C20.g', rule_g), ('C20.e+C20.g', rule_h), ('C15.d', rule_coroutines), ('C20.i', rule_i), ('C20.j', rule_j), ('C20.k', rule_k), ('C06.e', rule_queue_sources)]
+def rule_empty_filter(ctx):
+    """C20.l  The one element a client adapter may withhold is the empty response.  request_response of both client
+    adapters pipes the response future through filter(is_non_empty_payload) and nothing else; that predicate is false
+    exactly when data and metadata are both empty (None or length 0) - a response that carries only metadata, or only
+    data, is an element and is delivered."""
+    rep = ctx.report
+    repo = ctx.repo
+    g = repo.func('rsocket.helpers:is_non_empty_payload')
+    if g is None:
+        raise AnalysisError('C20.l: is_non_empty_payload vanished')
+    pay = ('param', g.qualname, g.params()[0])
+    ps = ctx.paths(g, None, inline_depth=2, symbolic_compare=True, no_inline={'safe_len'})
+    ok, detail = bool(ps), ''
+    rows = set()
+    for p in ps:
+        if p.outcome != 'return' or not p.value.is_const() or not isinstance(p.value.const, bool):
+            ok, detail = False, 'the predicate does not come out as a decided boolean on a path'
+            continue
+        empty = {}
+        for e in p.events:
+            if e.kind != 'cond':
+                continue
+            k = strip_epoch(e.data['key'])
+            if k[0] == 'truth' and k[1] in (('attr', pay, 'data'), ('attr', pay, 'metadata')):
+                # `not payload.data`: a bytes value is false exactly when it is None or empty
+                empty[k[1][2]] = not bool(e.data['value'])
+                continue
+            if k[0] == 'truth' and isinstance(k[1], tuple) and k[1][0] == 'cmp':
+                op, a, b = k[1][1], k[1][2], k[1][3]
+            elif k[0] in ('eq', 'ne', 'gt', 'lt') and len(k) == 3:
+                op, a, b = {'eq': 'Eq', 'ne': 'NotEq', 'gt': 'Gt', 'lt': 'Lt'}[k[0]], k[1], k[2]
+            else:
+                continue
+            field = None
+            for which in ('data', 'metadata'):
+                if ('attr', pay, which) in _flat20(a) and b == ('const', 0):
+                    field = which
+            if field is None:
+                continue
+            v = bool(e.data['value'])
+            empty[field] = v if op == 'Eq' else (not v) if op in ('NotEq', 'Gt') else None
+        d, m = empty.get('data'), empty.get('metadata')
+        result = p.value.const
+        # the result must be right for every completion of the facts the path did not look at
+        for dd in ([d] if d is not None else [True, False]):
+            for mm in ([m] if m is not None else [True, False]):
+                rows.add((dd, mm))
+                if result != (not (dd and mm)):
+                    ok, detail = False, ('a payload with %s data and %s metadata is %s' % (
+                        'no' if dd else 'some', 'no' if mm else 'some',
+                        'delivered' if result else 'withheld: an element of the response is lost'))
+    if ok and len(rows) != 4:
+        ok, detail = False, 'the predicate does not look at both data and metadata'
+    rep.add('C20.l', 'is_non_empty_payload / false exactly when data and metadata are both empty', g, ok,
+            detail or 'truth table over (data empty, metadata empty) decided on %d paths' % len(ps))
+    for pkg, mod, cname in (('reactivex', 'rsocket.reactivex.reactivex_client', 'ReactiveXClient'),
+                            ('rx_support', 'rsocket.rx_support.rx_rsocket', 'RxRSocket')):
+        c = repo.cls('%s:%s' % (mod, cname))
+        f = c.methods.get('request_response') if c is not None else None
+        if f is None:
+            raise AnalysisError('C20.l: %s.request_response vanished' % cname)
+        filters = [n for n in walk_local(f.node) if isinstance(n, ast.Call) and isinstance(n.func, ast.Attribute) and
+                   n.func.attr in ('filter', 'skip', 'take', 'skip_while', 'take_while', 'distinct',
+                                   'distinct_until_changed', 'first', 'last', 'element_at', 'debounce', 'sample')]
+        ok = len(filters) == 1 and filters[0].func.attr == 'filter' and len(filters[0].args) == 1 and \
+            isinstance(filters[0].args[0], ast.Name) and filters[0].args[0].id == 'is_non_empty_payload'
+        rep.add('C20.l', '%s %s.request_response / withholds nothing but the empty response' % (pkg, cname), f, ok,
+                'filter(is_non_empty_payload) is the only element-dropping operator' if ok else
+                'the response passes through %s' % [ast.unparse(x) for x in filters])
+
+
+def _flat20(t):
+    out = []
+    if isinstance(t, tuple):
+        out.append(t)
+        for x in t:
+            out.extend(_flat20(x))
+    return out
+
+
+RULES = [('C20.a', rule_a), ('C20.b', c06a), ('C20.c', c06b), ('C20.d', rule_d), ('C20.e', rule_e), ('C20.f', rule_f), ('C20.g', rule_g), ('C20.e+C20.g', rule_h), ('C15.d', rule_coroutines), ('C20.i', rule_i), ('C20.j', rule_j), ('C20.k', rule_k), ('C06.e', rule_queue_sources), ('C20.l', rule_empty_filter)]
